@@ -841,6 +841,41 @@ def d11_parser_per_file(chk: Check) -> None:
                      "unchanged")
 
 
+def d13_every_loaded_document_is_searched(chk: Check) -> None:
+    """Encrypted values can sit anywhere: in a document whose root is a
+    list just as well as under a Hash.  Between loading a file and handing
+    it to the discovery (`processor.data = ...`) the rotation loop skips a
+    file only because it could not be loaded.  A `continue` under a test of
+    the document's kind leaves such a file on the old keys, silently and
+    with exit status 0."""
+    prog = chk.prog
+    chk.rule("C19-D13", "no `continue` of the per-file loop of "
+             "eyaml-rotate-keys stands under an isinstance test of the "
+             "loaded document", floor=1)
+    fi = prog.func("eyaml_rotate_keys.main")
+    n = 0
+    bad = []
+    for j in walk_local(fi.node):
+        if not isinstance(j, ast.Continue):
+            continue
+        n += 1
+        for f in facts_at(j):
+            if f.kind == "cond" and any(
+                    isinstance(c, ast.Call) and src(c.func) == "isinstance"
+                    for c in ast.walk(f.expr)):
+                bad.append((j, f))
+    if bad:
+        j, f = bad[0]
+        chk.fail("C19-D13", fi, j, "continue under `{}`".format(
+            src(f.expr)[:50]),
+            "documents of some kind are never searched for encrypted "
+            "values: a list-rooted file keeps its secrets on the old keys "
+            "although the run reports success")
+    else:
+        chk.ok("C19-D13", fi, fi.node, "{} continue statement(s)".format(n),
+               "none depends on the kind of the document")
+
+
 def run(chk: Check) -> None:
     model = CliModel(chk.prog)
     d1_marker(chk)
@@ -856,6 +891,7 @@ def run(chk: Check) -> None:
     d9_whole_file_writes_truncate(chk)
     d10_offset_sign_applies_to_the_whole_delta(chk)
     d11_parser_per_file(chk)
+    d13_every_loaded_document_is_searched(chk)
     from rules.shared import single_consumption_rule
     single_consumption_rule(
         chk, "C19-D12", ("yamlpath/commands/eyaml_rotate_keys.py",
